@@ -129,7 +129,20 @@ def make_classes(ctx: Ctx) -> Dict[str, type]:
                 elif code == "X":
                     mon.on_expiration_log(log)
 
+        def process(self, logs):
+            # a logger may override process() and keep the batch it is handed for later: the list must stay as delivered
+            self._check_kept()
+            self._kept = (logs, len(logs), [id(x) for x in logs])
+            super().process(logs)
+
+        def _check_kept(self):
+            k = getattr(self, "_kept", None)
+            if k is not None and (len(k[0]) != k[1] or [id(x) for x in k[0]] != k[2]):
+                self._kept = None
+                mon.viol("C10", "delivered_batch_changed_afterwards", {"delivered": k[1], "now": len(k[0])})
+
         def write(self, log):
+            self._check_kept()
             self._see(log, "write")
             super().write(log)
 
